@@ -102,6 +102,17 @@ def cases(tier, seed):
                             for order, loss in ((1, "lin"), (2, "lin"), (2, "sq")):
                                 out.append({"family": fam, "n": n, "nb": nb, "xl_form": fl, "xu_form": fu, "kind": kind,
                                             "extra": False, "order": order, "loss": loss})
+    # ---- the object is given other tensors between the forward call and the backward pass
+    for n in (3, 7):
+        for nb in (None, NB_QUICK[n]):
+            for fl in ("num", "tg", "inf"):
+                for fu in ("num", "tg", "inf"):
+                    infinite = "inf" in (fl, fu)
+                    for fam in (INF_FAMILIES if infinite else FIN_FAMILIES):
+                        for kind in ("nn", "edit"):
+                            for order, loss in ((1, "lin"), (2, "lin"), (2, "sq")):
+                                out.append({"family": fam, "n": n, "nb": nb, "xl_form": fl, "xu_form": fu, "kind": kind,
+                                            "extra": False, "order": order, "loss": loss, "mut": 1})
     # ---- caller-supplied method callable (composite midpoint rule): inherited by the backward integral
     for n in (3, 7):
         for nb in (None, NB_QUICK[n]):
@@ -528,6 +539,17 @@ def run_case(cfg):
                 "obs": {"exc": _sig(o.exc)}, "status": "exception", "n": nexec}
     y = o.value
     ys = list(y) if fam.is_tuple else [y]
+    if cfg.get("mut") and hasattr(fcn, "__self__"):
+        # object history: after the forward call the owner gives the object OTHER tensors (the next problem of a
+        # loop re-using one module); every gradient of the first integral - also the one w.r.t. the limits, which
+        # needs the integrand at the limits - is that of the integrand of the forward call
+        owner = fcn.__self__
+        for i in range(len(P)):
+            old = getattr(owner, "p%d" % i)
+            with torch.no_grad():
+                val = old.detach() * 1.4 + 0.3
+            setattr(owner, "p%d" % i, torch.nn.Parameter(val) if isinstance(old, torch.nn.Parameter)
+                    else val.requires_grad_(old.requires_grad))
     obs["fwd_calls"] = len(log)
     fwd_inner = sorted({xv for (ph, xv, ge) in log if xv not in ends})
     if len(fwd_inner) != n:
